@@ -19,6 +19,10 @@ Definition cf (n : string) (args : list arg) (col uni : bool) (blocks : Z) (o : 
 (* ca observed: any other template -- the models only predict that it returns *)
 Definition ca (o : outcome) : ccase * outcome := (CAny, o).
 
+(* cr values observed: {@range ..} on these values (hex); ci observed: an @for that never ends by its condition *)
+Definition cr (vs : list string) (o : outcome) : ccase * outcome := (CRange (map unhex vs), o).
+Definition ci (o : outcome) : ccase * outcome := (CInf, o).
+
 Definition model (i : ccase) : outcome := predict i.
 Definition oeqb : outcome -> outcome -> bool := outcome_eqb.
 Definition check (i : ccase) (o : outcome) : bool := C08_check i o.
